@@ -205,8 +205,20 @@ func (c *RollingFileAppender) Append(e *Event) {
 func (c *RollingFileAppender) Write(b []byte) {
 	c.rotate()
 	if file := c.file.Load(); file != nil {
-		_, _ = file.Write(b)
+		if _, err := file.Write(b); isFileClosed(err) {
+			// A writer held up for two rotations finds its file closed by
+			// rotate; nothing was written, so use the current file instead.
+			if cur := c.file.Load(); cur != nil && cur != file {
+				_, _ = cur.Write(b)
+			}
+		}
 	}
+}
+
+// isFileClosed reports whether a write failed because the file had been closed.
+func isFileClosed(err error) bool {
+	pe, ok := err.(*os.PathError)
+	return ok && pe.Err == os.ErrClosed
 }
 
 // Stop flushes and closes both current and previous files.
